@@ -19,7 +19,12 @@ def handleLine (line : String) : String :=
     let c := s!"ff:{v (!o.filters)} ok:{v o.filters}"
     let d := s!"rs:{v (!o.exts)} toml:{v (!o.exts)} brs:{v o.ignorePatterns} ok:{v o.exts}"
     let e := s!"create:{v (!o.fsEvents)} modify:{v o.fsEvents}"
-    "|".intercalate [a, b, c, d, e]
+    -- each explicit option alone
+    let f1 := s!"rs:{v (!o.exts)} toml:{v (!o.exts)} ok:{v o.exts}"
+    let f2 := s!"fl:{v (!o.filters)} ok:{v o.filters}"
+    let f3 := s!"ip:{v o.ignorePatterns} ok:pass"
+    let f4 := s!"ex:{v ex} ok:pass"
+    "|".intercalate [a, b, c, d, e, f1, f2, f3, f4]
   | _ => "bad-op"
 
 end Wx.Driver.Flags
